@@ -45,3 +45,15 @@ func (l *recLogger) Since(n int) []recCommit {
 	defer l.mu.Unlock()
 	return append([]recCommit(nil), l.commits[n:]...)
 }
+
+// multiLogger fans a commit out to several loggers (Options.Writer takes one).
+type multiLogger []commit.Logger
+
+func (m multiLogger) Append(c commit.Commit) error {
+	for _, l := range m {
+		if err := l.Append(c); err != nil {
+			return err
+		}
+	}
+	return nil
+}
